@@ -149,14 +149,18 @@ def lock_race_probe(rep, ctx, n):
             ticks = rng.randrange(0, 4)
             kind = rng.choice(('complete', 'stop'))
 
+            nruns = rng.choice((1, 1, 2, 3))                 # the emitter is one object per process: consecutive runs reuse it
+            kinds = [kind] + [rng.choice(('complete', 'stop')) for _ in range(nruns - 1)]
+
             def main():
-                em.emit_start(facets={'a': 1})
-                em.start_lineage_heart_beat()
-                w.sleep(em.interval * ticks + rng.choice((0.0, 0.001, 0.005)))
-                em.stop_lineage_heart_beat()
-                (em.emit_complete if kind == 'complete' else em.emit_stop)()
-                em.stop_lineage_heart_beat()
-                em.emit_complete()                       # the second (idempotent) call of Filter.run's outer finally
+                for kd in kinds:
+                    em.emit_start(facets={'a': 1})
+                    em.start_lineage_heart_beat()
+                    w.sleep(em.interval * ticks + rng.choice((0.0, 0.001, 0.005)))
+                    em.stop_lineage_heart_beat()
+                    (em.emit_complete if kd == 'complete' else em.emit_stop)()
+                    em.stop_lineage_heart_beat()
+                    em.emit_complete()                   # the second (idempotent) call of Filter.run's outer finally
             w.spawn('main', main)
             for _ in range(600):
                 acts = w.enabled()
@@ -173,14 +177,30 @@ def lock_race_probe(rep, ctx, n):
             Lm.threading = saved
             w.kill_all()
         rep.case(('lockrace', k))
-        terms = [i for i, e in enumerate(events) if e in ('COMPLETE', 'ABORT', 'FAIL')]
+        # one segment per run: from a START up to the next START
+        segs, cur = [], []
+        for e in events:
+            if e == 'START' and cur:
+                segs.append(cur)
+                cur = []
+            cur.append(e)
+        if cur:
+            segs.append(cur)
         bad = None
-        if not events or events[0] != 'START' or events.count('START') != 1:
-            bad = ('start', f'START is not exactly once and first: {events}')
-        elif len(terms) != 1:
-            bad = ('terminal_multiplicity', f'{len(terms)} terminal events: {events}')
-        elif terms[0] != len(events) - 1:
-            bad = ('after_terminal', f'event(s) after the terminal event: {events}')
+        if len(segs) != len(kinds):
+            bad = ('start', f'{len(kinds)} consecutive runs but {len(segs)} START-delimited histories: {events}')
+        for seg, kd in zip(segs, kinds):
+            terms = [i for i, e in enumerate(seg) if e in ('COMPLETE', 'ABORT', 'FAIL')]
+            if bad:
+                break
+            if seg[0] != 'START':
+                bad = ('start', f'START is not first: {events}')
+            elif len(terms) != 1:
+                bad = ('terminal_multiplicity', f'{len(terms)} terminal events in one run: {seg} (all: {events})')
+            elif terms[0] != len(seg) - 1:
+                bad = ('after_terminal', f'event(s) after the terminal event: {seg} (all: {events})')
+            elif seg[terms[0]] != ('COMPLETE' if kd == 'complete' else 'ABORT'):
+                bad = ('terminal_kind', f'run ended {kd} but emitted {seg[terms[0]]}: {seg}')
         if bad:
             nviol += 1
             rep.violation(f'C18_Wellformed (emitter lock discipline, interleaving {k}): {bad[1]}',
